@@ -29,12 +29,37 @@ TIMEOUT = {"quick": 900, "thorough": 5400}
 
 def plan(tier, seed):
     if tier == "quick":
-        return [{"n_cases": 300, "mode": "A", "hashseed": i % 3} for i in range(8)]
+        return [{"n_cases": 300, "mode": "A", "hashseed": i % 3} for i in range(8)] + \
+               [{"n_cases": 2, "mode": "A", "params": {"huge": True}}]
     return [{"n_cases": 2200, "mode": "A", "hashseed": i % 4} for i in range(14)] + \
-           [{"n_cases": 1200, "mode": "B", "hashseed": i} for i in range(2)]
+           [{"n_cases": 1200, "mode": "B", "hashseed": i} for i in range(2)] + \
+           [{"n_cases": 2, "mode": "A", "params": {"huge": True}, "hashseed": i} for i in range(3)]
+
+
+
+def huge_case(rng):
+    """more than 1000 elements (numpy's print threshold, deep recursion, int16 ranges): near-unanimous permutations that
+    agree on their head and tail and differ on a few middle positions"""
+    n = rng.choice([1009, 1030, 1100])
+    base = list(range(n))
+    rng.shuffle(base)
+    ds = []
+    lo = rng.randint(200, 700)
+    for _ in range(rng.randint(4, 6)):
+        r = list(base)
+        mid = list(range(lo, lo + rng.choice([4, 6, 8])))
+        vals = [r[i] for i in mid]
+        rng.shuffle(vals)
+        for i, v in zip(mid, vals):
+            r[i] = v
+        ds.append([[e] for e in r])
+    return ds
 
 
 def gen_case(rng, ctx):
+    if ctx.params.get("huge"):
+        return {"ds": huge_case(rng), "scheme": [list(v) for v in ref.PRESETS["unifying"]], "dcls": "huge", "scls": "S1",
+                "libseed": rng.randrange(10 ** 6), "starters": []}
     if rng.random() < 0.15:
         # opposing rankings with ties + one-bucket partial rankings under cheap ties: the all-tied ranking is the best
         # starting point (and the other starts lead to worse local optima)
@@ -42,9 +67,9 @@ def gen_case(rng, ctx):
         ds = libx.normalise_raw(ds)
         return {"ds": ds, "scheme": gen.scheme_cheap_ties(rng), "dcls": cls, "scls": "cheap-ties",
                 "libseed": rng.randrange(10 ** 6), "starters": rng.choice([[], [], [], ["BioCo!"], ["Borda"]])}
-    cls, ds = gen.dataset(rng, classes="D2 D3 D3 D4 D6 D7 D8 D9 D10 D11 D15 D15 D13", nmax=8, mmax=6)
+    cls, ds = gen.dataset(rng, classes="D2 D3 D3 D4 D6 D7 D8 D9 D10 D11 D15 D15 D13 D16 D17", nmax=8, mmax=6)
     ds = libx.normalise_raw(ds)
-    scls, sch = gen.scheme(rng, "S1 S1 S2 S3 S3 S6 S9 S10 S10 S11")
+    scls, sch = gen.scheme(rng, "S1 S1 S2 S3 S3 S6 S9 S10 S10 S11 S12")
     return {"ds": ds, "scheme": sch, "dcls": cls, "scls": scls, "libseed": rng.randrange(10 ** 6),
             "starters": rng.choice(STARTERS)}
 
@@ -100,6 +125,8 @@ def check_case(case, ctx):
         label = "BioConsert"
     ctx.count("runs")
     ctx.count("runs:" + label)
+    if case.get("dcls") == "huge":
+        ctx.count("runs_on_more_than_1000_elements")
     if st != "ok":
         if isinstance(cons, libx.DOCUMENTED_REFUSALS) and not complete:
             ctx.count("refused")
@@ -173,6 +200,7 @@ def reach(counters, tier, info):
     out = []
     for name, key, need in [("runs whose starting ranking lists the elements in an order different from the id order",
                              "scrambled_starts", 500 * k), ("starting points compared", "starts_compared", 1500 * k),
+                            ("runs on more than 1000 elements", "runs_on_more_than_1000_elements", 2),
                             ("no-starter runs where the all-tied ranking is the strictly best starting point",
                              "all_tied_is_the_strictly_best_start", 30 * k)]:
         v = counters.get(key, 0)
